@@ -36,6 +36,9 @@ class World:
         self.log = []
         self.violations = []
         self.dying = {}       # worker -> (greenlet with a pending kill, its connection handler)
+        self.jobs_seen = []   # every job object ever created by an add
+        self.given = {}       # (jobid, serial) -> (worker, connection epoch of that worker at the hand-out)
+        self.conn_epoch = {}  # worker -> number of disconnects so far
 
     def rebind(self, wq):
         self.wq = wq
@@ -44,7 +47,16 @@ class World:
             workq = wq
         self.Handler = Handler
         self.conns = {w: Handler() for w in (1, 2, 3)}
+        # the old server process is gone, and with it the greenlets that served its connections
+        for g in list(self.pulling.values()) + [g for g, _ in self.dying.values()]:
+            if not g.dead:
+                g.kill(block=False)
+        gevent.sleep(0)
         self.pulling = {}
+        self.dying = {}
+        self.restarted = True     # (job objects are rebuilt by the restore: identity tracking ends here)
+        for w in (1, 2, 3):       # a restart drops every connection
+            self.conn_epoch[w] = self.conn_epoch.get(w, 0) + 1
 
     # --- operations -------------------------------------------------------------
     def with_clock(self, fn, *a, **k):
@@ -60,6 +72,9 @@ class World:
         jid = self.with_clock(self.wq.push, channel, payload={"n": len(self.added)}, priority=priority,
                               jobid=jobid, timeout=timeout)
         self.added.append(jid)
+        j = self.wq.id2job.get(jid)
+        if j is not None and not any(j is x for x in self.jobs_seen):
+            self.jobs_seen.append(j)      # by object: the id table may forget a job (two jobs under one id)
         return jid
 
     def start_pull(self, worker, channels):
@@ -75,6 +90,13 @@ class World:
             # channels None: the request carried no "channels" argument at all (ServerProxy.qpull())
             snap = conn.rpc_qpull(list(channels)) if channels is not None else conn.rpc_qpull()
             self.received.append((worker, snap, snap.get("done", False), list(channels or ())))
+            # once per enqueueing: a second hand-out of the same job needs the first holder's connection to have dropped
+            key = (snap.get("jobid"), snap.get("serial"))
+            prev = self.given.get(key)
+            if prev is not None and self.conn_epoch.get(prev[0], 0) == prev[1] and self.twice_violation is None:
+                self.twice_violation = (f"job {key[0]!r} handed to worker {worker} while worker {prev[0]}, who received it before, is still connected "
+                                        f"and has not finished it")
+            self.given[key] = (worker, self.conn_epoch.get(worker, 0))
         g = gevent.spawn(run)
         self.pulling[worker] = g
         gevent.sleep(0)      # let it run until it returns or blocks
@@ -95,6 +117,7 @@ class World:
             if g.dead:
                 del self.dying[worker]
                 conn.shutdown()
+                self.conn_epoch[worker] = self.conn_epoch.get(worker, 0) + 1
 
     def disconnect_async(self, worker):
         """the reader greenlet saw EOF and scheduled the kill of the handler greenlet; nothing has run yet, so
@@ -112,6 +135,8 @@ class World:
         for conn in self.conns.values():
             if jobid in conn.running_jobs:
                 conn.rpc_qfinish(jobid, result={"r": 1} if not error else None, error=error)
+                for k in [k for k in self.given if k[0] == jobid]:
+                    del self.given[k]
                 return True
         return False      # only the worker holding a job reports it finished
 
@@ -131,6 +156,8 @@ class World:
 
     timeout_violation = None
 
+    twice_violation = None
+
     def disconnect(self, worker):
         g = self.pulling.pop(worker, None)
         conn = self.conns[worker]
@@ -140,6 +167,7 @@ class World:
             gevent.sleep(0)
         conn.shutdown()
         self.conns[worker] = self.Handler()
+        self.conn_epoch[worker] = self.conn_epoch.get(worker, 0) + 1      # (what it received until now belonged to the old connection)
 
     # --- observation --------------------------------------------------------------
     def places(self, j):
@@ -162,13 +190,24 @@ class World:
         return n, where
 
     def check_c16(self):
+        if self.twice_violation:
+            return self.twice_violation
         for jid, j in list(self.wq.id2job.items()):
             if j.done:
                 continue
             n, where = self.places(j)
             if n != 1:
                 return f"job {jid!r} (not finished) is in {n} places {where}"
+        if not self.restarted:
+            for j in self.jobs_seen:
+                if not j.done and self.wq.id2job.get(j.jobid) is not j:
+                    n, where = self.places(j)
+                    if n != 1:
+                        return (f"job with id {j.jobid!r} and serial {j.serial} (not finished; another job took its id in the id table) "
+                                f"is in {n} places {where}")
         return None
+
+    restarted = False
 
     order_violation = None
 
@@ -234,6 +273,9 @@ def apply(world, op):
         world.disconnect(op[1])
     elif kind == "disconnect_async":
         return world.disconnect_async(op[1])
+    elif kind == "add_int_id":
+        # a client supplies an integer id (JSON clients can): the id the counter will reach with the next automatic job
+        world.add(op[1], 0, jobid=world.wq.count + 2)
     elif kind == "readd":
         if op[1] >= len(world.added):
             return False
@@ -333,6 +375,8 @@ def search(max_len, checks=("c16", "c17"), budget=200000, seed=0, want=None, ran
                  [("kill", 0), ("readd", 0), ("pull", 2, ("a",)), ("run",), ("disconnect", 1), ("disconnect", 2), ("pull", 1, ("a",)), ("clock",)], 4),
                 ([("add", "a", 0), ("add", "a", 0)],
                  [("kill", 1), ("kill", 0), ("finish", 1), ("pull", 1, ("a",)), ("pull", 2, ("a",)), ("run",)], 4),
+                # (4) an explicit integer id next to automatic ids
+                ([], [("add_int_id", "a"), ("add", "a", 0), ("pull", 1, ("a",)), ("pull", 2, ("a",)), ("finish", 0), ("finish", 1), ("run",), ("disconnect", 1)], 5),
                 # (3) a blocked puller whose connection dies in the same loop turn in which a job arrives; pulls
                 #     that carry no channels argument at all
                 ([],
